@@ -20,6 +20,7 @@ import (
 	kb "github.com/libp2p/go-libp2p-kbucket"
 	"github.com/libp2p/go-libp2p-kbucket/peerdiversity"
 	"github.com/libp2p/go-libp2p/core/peer"
+	"github.com/libp2p/go-libp2p/core/peerstore"
 	ma "github.com/multiformats/go-multiaddr"
 
 	pb "github.com/libp2p/go-libp2p-kad-dht/pb"
@@ -39,6 +40,7 @@ type lkPeer struct {
 	closer   []int // indices into lkCase.peers; -1 = the node under test
 	a, b     [2]int
 	naddr    int  // 1 or 2 addresses
+	bare     bool // named in answers without addresses; the querier's peerstore holds them
 	pass     bool // passes the query filter
 	knows    []int
 	slowDial bool // not connected yet: the dial is a separate step that the driver releases (and that succeeds)
@@ -121,6 +123,10 @@ func lkGen(r *vfRand, i int, honest bool) *lkCase {
 		p.a = [2]int{r.Intn(3), r.Intn(3)}
 		p.b = [2]int{r.Intn(3), r.Intn(3)}
 		p.pass = honest || !r.Chance(12)
+		// responders name this peer without any address (legal on the wire: other implementations, expired address
+		// TTLs) while the querier holds its addresses in the peerstore; only without a diversity limit, which is
+		// computed from the addresses of the record
+		p.bare = !honest && c.limit == 0 && r.Chance(20)
 		switch {
 		case r.Chance(failPct):
 			p.outcome = lkDialFail + r.Intn(2)
@@ -335,6 +341,11 @@ func lkRun(t *testing.T, r *vfRand, c *lkCase, public bool, hooks ...*lkHooks) *
 	for _, j := range c.rt {
 		node.Seed(c.peers[j].id)
 	}
+	for j := range c.peers {
+		if c.peers[j].bare {
+			node.h.ps.AddAddrs(c.peers[j].id, c.peers[j].addrs(), peerstore.PermanentAddrTTL)
+		}
+	}
 	o.rtBefore = d.routingTable.ListPeers()
 	// the seeds the lookup must start from: the K nearest routing-table members
 	rtIdx := []int{}
@@ -371,7 +382,11 @@ func lkRun(t *testing.T, r *vfRand, c *lkCase, public bool, hooks ...*lkHooks) *
 			if x < 0 {
 				infos = append(infos, peer.AddrInfo{ID: d.self, Addrs: node.h.addrs})
 			} else {
-				infos = append(infos, peer.AddrInfo{ID: c.peers[x].id, Addrs: c.peers[x].addrs()})
+				ai := peer.AddrInfo{ID: c.peers[x].id, Addrs: c.peers[x].addrs()}
+				if c.peers[x].bare {
+					ai.Addrs = nil
+				}
+				infos = append(infos, ai)
 			}
 		}
 		resp.CloserPeers = pb.RawPeerInfosToPBPeers(infos)
